@@ -334,26 +334,52 @@ def d4_splicing(ctx):
 
 
 def d5_tscale(ctx):
-    ctx.rule("D5", "tscale element == (first + last - 1) / 2 / fs")
+    ctx.rule("D5", "tscale element == (first + last - 1) / 2 / fs for every window, including a clipped last one")
     repo = ctx.repo
     fi = repo.fn(CLS + ".tscale")
     comps = find(fi.node, ast.ListComp) + find(fi.node, ast.GeneratorExp)
-    if not comps:
-        raise AnchorMissing("tscale: comprehension not found")
-    c = comps[0]
-    names = [loc_name(e) for e in c.generators[0].target.elts]
-    ev = Evaluator(facts=_facts(), resolve=_resolver(repo, fi))
-    got = ev.ev(c.elt)
-    F, L, FS = Poly.sym(names[0]), Poly.sym(names[1]), Poly.sym("fs")
-    want = (F + L - Poly.const(1)) * Poly.const(0.5) * FS.pow(-1)
-    ctx.check(got == want, fi, c, f"tscale element = {got}", "time scale is the window centre", f"time scale element is {got}, expected {want}", key="tscale")
-    ctx.check("firstlast" in src(c.generators[0].iter), fi, c, src(c.generators[0].iter), "iterates the window generator", "does not iterate firstlast",
-              key="tscale-iter")
+    if comps:
+        c = comps[0]
+        names = [loc_name(e) for e in c.generators[0].target.elts]
+        ev = Evaluator(facts=_facts(), resolve=_resolver(repo, fi))
+        got = ev.ev(c.elt)
+        F, L, FS = Poly.sym(names[0]), Poly.sym(names[1]), Poly.sym("fs")
+        want = (F + L - Poly.const(1)) * Poly.const(0.5) * FS.pow(-1)
+        ctx.check(got == want, fi, c, f"tscale element = {got}", "time scale is the window centre", f"time scale element is {got}, expected {want}", key="tscale")
+        ctx.check("firstlast" in src(c.generators[0].iter), fi, c, src(c.generators[0].iter), "iterates the window generator", "does not iterate firstlast",
+                  key="tscale-iter")
+        return
+    # closed form over the window index k = arange(nwin)
+    stride = stride_poly(repo)
+
+    class E(Evaluator):
+        def ev(self, e):
+            if isinstance(e, ast.Call) and call_name(e) == "arange" and len(e.args) == 1 and loc_name(e.args[0]) == "self.nwin":
+                return Poly.sym("K")
+            return super().ev(e)
+    ev = E(facts=_facts(), resolve=_resolver(repo, fi))
+    sx = SymExec(ev, on_undecided="havoc")
+    sx.run(fi.node.body)
+    if not sx.returns or sx.returns[0] is None:
+        raise AnalysisError("tscale: neither a comprehension over firstlast nor a closed form")
+    try:
+        got = ev.ev(sx.returns[0])
+    except Undecided as e:
+        raise AnalysisError(f"tscale: closed form not evaluable: {e}")
+    K, W, FS, NS = Poly.sym("K"), Poly.sym("self.nswin"), Poly.sym("fs"), Poly.sym("self.ns")
+    full = (K * stride + K * stride + W - Poly.const(1)) * Poly.const(0.5) * FS.pow(-1)
+    if got == full:
+        ctx.violation(fi, fi.node, f"tscale[k] = {got}", "closed-form time scale assumes every window is nswin long: the generator clips the last window to ns, whose centre is "
+                      "(first + ns - 1)/2 - the last entry is wrong whenever ns - nswin is not a multiple of the stride", key="tscale")
+    elif "self.ns" in got.canon() or "min(" in got.canon():
+        raise AnalysisError(f"tscale: closed form {got} handles ns in a way this rule cannot normalise")
+    else:
+        ctx.violation(fi, fi.node, f"tscale[k] = {got}", f"time scale normalises to {got}; window k is centred at {full} (full windows)", key="tscale")
 
 
 def run(ctx):
-    d1_generator(ctx)
-    d2_valid(ctx)
-    d3_count(ctx)
-    d4_splicing(ctx)
-    d5_tscale(ctx)
+    ctx.run(d1_generator)
+    ctx.run(d2_valid)
+    ctx.run(d3_count)
+    ctx.run(d4_splicing)
+    ctx.run(d5_tscale)
